@@ -609,7 +609,7 @@ def f32(x: float) -> float:
 def gen_f32(rng):
     c = rng.random()
     if c < 0.3:
-        return rng.choice([0.0, -0.0, 1.0, -1.0, 0.5, 255.0, 3.4028234663852886e+38, 1.401298464324817e-45, f32(0.1), 1e-7 and f32(1e-7)])
+        return rng.choice([0.0, -0.0, 1.0, -1.0, 0.5, 255.0, 3.4028234663852886e+38, 1.401298464324817e-45, f32(0.1), f32(1e-7)])
     if c < 0.7:
         return f32(rng.uniform(-4096, 4096))
     while True:
@@ -1029,9 +1029,9 @@ def run(chk: Check):
     if chk.tier == "quick":
         _carrier_machine(chk)
         _messages(chk, 3)
-        _codec(chk, False, 500, 3)
+        _codec(chk, False, 400, 3)
     else:
         _carrier_machine(chk)
-        _messages(chk, 12)
-        _codec(chk, True, 6000, 4)
+        _messages(chk, 18)
+        _codec(chk, True, 10000, 4)
     chk.cov["exhaustive"] = True
